@@ -179,7 +179,10 @@ def tree_interp(repo, d: int = 3, pss_sign: int = 1, r: int = 0, cls: str = "Mul
         return Unk(f"signs[{key}]")
 
     blades = Obj("blades", {"e": T.num(1, cls)})
-    attrs = {"d": d, "r": r, "pss": T.var("pss", cls), "blades": blades, "signs": Obj("dict", getitem=signs_getitem)}
+    attrs = {"d": d, "r": r, "pss": T.var("pss", cls), "blades": blades, "signs": Obj("dict", getitem=signs_getitem),
+             # the generators as opaque elements: an expression built from them is NOT the pseudoscalar `pss` (the
+             # pseudoscalar is the blade the basis spells, which differs from a product of generators by a sign)
+             "frame": [T.var(f"g{i}", cls) for i in range(d)]}
     attrs.update(extra_attrs or {})
     it = make_interp(repo, attrs, {"__len__": lambda: 2 ** d}, opaque_calls=("grade", "filter", "map", "items", "keys", "values", "grades", "type_number", "free_symbols",
                                    "issymbolic", "shape"))
